@@ -1,6 +1,6 @@
 (* C12 -- concurrent senders never interleave packets.  Statements only; proofs in Proofs/C12_*.v. *)
 From Coq Require Import List Arith Bool Sorting.Sorted.
-From EN Require Import Lib.Bytes Conc.FairLock Conc.Guard Conc.SendSerial Proofs.C12_fairlock.
+From EN Require Import Lib.Bytes Conc.FairLock Conc.Guard Conc.SendSerial Proofs.C12_fairlock Proofs.C12_wire.
 Import ListNotations.
 
 (* FairLock, every label sequence (acquire / resume / cancel of ANY waiter at ANY time / release): at most one holder,
@@ -44,3 +44,29 @@ Example fairlock_run_example :
   exists s, fl_run fl_init [FAcquire 0; FAcquire 1; FAcquire 2; FRelease 0; FCancel 1; FResume 2] = Some s
             /\ fl_holders s = [2] /\ fl_acq s = [0; 2] /\ fl_cancelled s = [1].
 Proof. eexists. split; [vm_compute; reflexivity|]. repeat split. Qed.
+
+(* N senders, any programs, with the client lock (ul = true: AsyncTCPNetworkClient, server-side client) or without
+   (ul = false: AsyncStreamEndpoint used directly), every label sequence (start / resume / transport suspension ends
+   normally or with an error / cancellation of any task at any await):
+   - the wire is the concatenation, in the order in which the sends got hold of the transport, of one segment per send;
+   - a segment is a prefix (whole pieces) of its packet, and the whole packet when the send completed;
+   - only the newest segment can still be in progress: packets never interleave;
+   - when every send completed (nothing cancelled or failed), the wire is exactly the concatenation of the packets. *)
+Theorem wire_is_concat_of_packets :
+  forall (ul : bool) (progs : list (list packet)) (ls : list slabel) (s : st),
+    s_run (st_init ul progs) ls = Some s ->
+    s_wire s = concat (map seg_bytes (rev (s_segs s))) /\
+    (forall g, In g (s_segs s) ->
+       seg_bytes g = concat (firstn (sg_written g) (sg_pkt g)) /\ sg_written g <= length (sg_pkt g) /\
+       (sg_st g = SgComplete -> seg_bytes g = pkt_bytes (sg_pkt g))) /\
+    Forall not_active (tl (s_segs s)) /\
+    (all_complete (s_segs s) -> s_wire s = concat (map (fun g => pkt_bytes (sg_pkt g)) (rev (s_segs s)))).
+Proof. exact wire_is_concat_of_packets_proof. Qed.
+Print Assumptions wire_is_concat_of_packets.
+
+(* non-vacuity: two senders with the lock, the second one parks, the first completes, the hand-off happens *)
+Example send_serial_example :
+  exists s, s_run (st_init true [[[[1%N]; [2%N]]]; [[[3%N]]]])
+                  [SStart 0; SStart 1; SWrite 0; SWrite 0; SResume 1; SWrite 1] = Some s
+            /\ s_wire s = [1%N; 2%N; 3%N] /\ all_complete (s_segs s).
+Proof. eexists. split; [vm_compute; reflexivity|]. split; [reflexivity|]. repeat constructor. Qed.
